@@ -240,8 +240,8 @@ pub fn worker_main(run: TargetFn) -> ! {
                     eprintln!("VERIF-CPU-LIMIT case used more than {} s of CPU", CPU_LIMIT_US / 1_000_000);
                     std::process::abort();
                 }
-                if now.saturating_sub(s) > 60 {
-                    eprintln!("VERIF-WATCHDOG case running for more than 60 s wall clock");
+                if now.saturating_sub(s) > 600 {
+                    eprintln!("VERIF-WATCHDOG case running for more than 600 s wall clock");
                     std::process::abort();
                 }
             }
